@@ -27,6 +27,7 @@ EXTRA = [r for r in EXTRA if not (r[0] == "pred" and "update" in r[3])]
 # escapes that are not failures of *loading a file*: (function of the site, callee prefix, class) -> reason
 NOT_LOADING = [
     ("util.b", "raise", "TypeError", "util.b on a non-string argument (e.g. a non-str password): caller's programming error, not file content"),
+    ("util.u", "raise", "TypeError", "util.u on a value that is neither bytes nor str: Message.get_text hands it get_string()'s bytes; not file content"),
     (None, "nacl.signing.SigningKey", "TypeError", "the seed is always a bytes slice of the parsed message"),
     (None, "nacl.signing.VerifyKey", "TypeError", "the key is always bytes read from the message"),
 ]
